@@ -406,6 +406,8 @@ def run(ctx):
                 for y in why:
                     ctx.violation({'kind': 'ops', 'why': y, 'ops': hist, 'shape': [o[0] for o in hist]}, {})
             for hist, key in kids:
+                if len(hist) <= 2:
+                    key = repr(hist)      # short histories are never merged (exposes hidden implementation state)
                 if key not in seen:
                     seen[key] = hist
                     nxt.append(hist)
